@@ -39,6 +39,7 @@ type Config struct {
 	MemCapMB   uint64    // stop (with continuation) when the process holds more than this
 	Deadline   time.Time // zero = none; on reaching it the remaining stack is DROPPED and Capped set
 	Stack      []Item    // initial stack (nil = the root)
+	Postpone   bool      // offer "postpone the default thread" (sticky delay) at every thread point
 }
 
 // Stats of one exploration.
@@ -81,7 +82,7 @@ func Run(t *testing.T, cfg Config, exec func(o vsched.Options) (*vsched.Sched, a
 		}
 		it := stack[len(stack)-1]
 		stack = stack[:len(stack)-1]
-		s, obs := exec(vsched.Options{Prefix: it.Prefix, ExpectFP: it.FP, MaxSteps: cfg.MaxSteps})
+		s, obs := exec(vsched.Options{Prefix: it.Prefix, ExpectFP: it.FP, MaxSteps: cfg.MaxSteps, Postpone: cfg.Postpone})
 		st.Execs++
 		st.Steps += int64(s.Steps)
 		st.Points += int64(len(s.Points))
@@ -138,13 +139,20 @@ func devCost(cfg Config, p *vsched.Point, alt int) int {
 	if p.Kind == "select" {
 		return cfg.SelectCost
 	}
-	if p.CurEnable || (p.Advance && alt == p.N-1) {
+	if p.Postpone && alt == p.N-1 {
+		return 1
+	}
+	last := p.N - 1
+	if p.Postpone {
+		last--
+	}
+	if p.CurEnable || (p.Advance && alt == last) {
 		return 1
 	}
 	return 0
 }
 
 // Replay runs exactly one recorded choice sequence with tracing.
-func Replay(t *testing.T, choices []int, maxSteps int, exec func(o vsched.Options) (*vsched.Sched, any)) (*vsched.Sched, any) {
-	return exec(vsched.Options{Prefix: choices, MaxSteps: maxSteps, Trace: true})
+func Replay(t *testing.T, choices []int, maxSteps int, postpone bool, exec func(o vsched.Options) (*vsched.Sched, any)) (*vsched.Sched, any) {
+	return exec(vsched.Options{Prefix: choices, MaxSteps: maxSteps, Trace: true, Postpone: postpone})
 }
